@@ -45,6 +45,11 @@ class C10(Prop):
     lean_module = "RxModel.Props.C10"
     extra_modules = ("RxModel.Props.C06S", "RxModel.Props.C02S")
     design_ref = "DESIGN.md §6 C10"
+    # critical sections read off the source (rs2lean/src/holds.rs): which calls are made while which shared cell is held — the policies P1–P7 and the pinned tables the footprint model was transcribed from
+    tie_modules = {
+        "RxModel.GenTie.Holds": [],
+        "RxModel.GenTie.HoldsPins": [],
+    }
     rule = ("a SubjectThreads with 1-3 subscribers, each behind a chain (<=3) of lock-free stages (map), shared cells "
             "(merge_threads), Option slots (take_until_threads) and finalize_threads; scripts of next / is_empty-len / "
             "retain / error / complete / unsubscribe(-all); every lock acquisition of the real code is recorded "
